@@ -420,7 +420,14 @@ def x1(model: Model, rep: Report):
     ok = v == want
     rep.check(ok, "C12.X1", "RepetitionExperimentKernel.indexing_kernels", g.loc, found=show(v), required="self._repetition_kernels + [self._calibration_kernel]", what="kernel order changed", detail="order")
     est = E.resolve("estimate_experiment_repetitions")
-    _chain_builder(model, rep, est, E, sym("rounds"), sym("heralded_initialization"), "RepetitionExperimentKernel.estimate_experiment_repetitions", False)
+    builds_kernels = any(isinstance(n_, ast.Call) and ((isinstance(n_.func, ast.Name) and n_.func.id.endswith("IndexKernel")) or (isinstance(n_.func, ast.Attribute) and n_.func.attr.endswith("IndexKernel")))
+                         for n_ in ast.walk(est.node)) or any(isinstance(n_, ast.Call) and isinstance(n_.func, ast.Attribute) and isinstance(n_.func.value, ast.Name)
+                                                             and n_.func.value.id in ("self", "cls", "RepetitionExperimentKernel") for n_ in ast.walk(est.node))
+    if builds_kernels:
+        _chain_builder(model, rep, est, E, sym("rounds"), sym("heralded_initialization"), "RepetitionExperimentKernel.estimate_experiment_repetitions", False)
+    else:
+        # the estimate counts acquisitions per block in closed form instead of chaining kernels: nothing to chain; the count itself is decided by C12.X5
+        rep.ok("C12.X1", "RepetitionExperimentKernel.estimate_experiment_repetitions[no kernel chain]", est.loc, found="closed-form cycle length (no kernels constructed)", required="chain of kernels, or a closed form decided by C12.X5")
 
 
 # ---------------------------------------------------------------------------------------------
@@ -429,25 +436,54 @@ def x4(model: Model, rep: Report):
                        "first.start_index + 1; every experiment getter slices the matching kernel getter with (kernel_cycle_length, experiment_repetitions)")
     E = model.cls("RepetitionExperimentKernel")
     f = E.resolve("create_sliced_arrays")
-    v = Evaluator(model, inline_methods=False).value_of(f, self_cls=E)
     il, cl, rp = (sym(p) for p in f.param_names[:3])
-    inner = v[2][0] if v[0] == "call" and isinstance(v[1], tuple) and v[1][2] in ("asarray", "array") and v[2] else v
-    ok = False
-    found = show(v)
-    if inner[0] == "comp" and len(inner[3]) == 1 and not inner[3][0][1]:
-        it = inner[3][0][0]
-        elt = inner[2]
-        bounds = subterms(elt, lambda x: x[0] == "bound")
-        if len(bounds) == 1 and it == ("call", "range", (rp,), ()):
-            arr = [a for a in as_lin(elt)[0] if a[0] == "call" and isinstance(a[1], tuple) and a[1][2] in ("array", "asarray") and a[2] == (il,)]
-            if len(arr) == 1:
-                want = t_add(arr[0], t_mul(bounds[0], cl))
-                ok = elt == want
-    if inner[0] != "comp":
-        # a vectorised rewrite is outside the fragment this rule can normalise: undecided, not a violation
-        raise AnalysisError("create_sliced_arrays is no longer a comprehension over range(repetitions); the translate rule cannot normalise it: " + found)
+    ok = None
+    found = ""
+    try:
+        v = Evaluator(model, inline_methods=False).value_of(f, self_cls=E)
+        found = show(v)
+        inner = v[2][0] if v[0] == "call" and isinstance(v[1], tuple) and v[1][2] in ("asarray", "array") and v[2] else v
+        if inner[0] == "comp" and len(inner[3]) == 1 and not inner[3][0][1]:
+            ok = False
+            it = inner[3][0][0]
+            elt = inner[2]
+            bounds = subterms(elt, lambda x: x[0] == "bound")
+            if len(bounds) == 1 and it == ("call", "range", (rp,), ()):
+                arr = [a for a in as_lin(elt)[0] if a[0] == "call" and isinstance(a[1], tuple) and a[1][2] in ("array", "asarray") and a[2] == (il,)]
+                if len(arr) == 1:
+                    want = t_add(arr[0], t_mul(bounds[0], cl))
+                    ok = elt == want
+    except Unsupported:
+        ok = None
+    if ok is None:
+        # not the comprehension over range(repetitions): a vectorised spelling.  Its INDEX MAP is decided by interpreting the function's numpy
+        # expressions on symbolic elements for every shape up to 4 x 4 (qcolint.arrays): cell (i, j) must hold int_list[j] + i * cycle_length
+        from ..arrays import Arr, MiniNumpy, const as a_const, f_add as a_add, form as a_form, show_form, symbol
+        names = list(f.param_names[:3])
+        bad_cell = None
+        n_shapes = 0
+        try:
+            for R in range(1, 5):
+                for L in range(1, 5):
+                    xs = [symbol(f"{names[0]}[{j}]") for j in range(L)]
+                    out = MiniNumpy().run(f.node, {names[0]: xs, names[1]: symbol(names[1]), names[2]: R})
+                    out = out if isinstance(out, Arr) else MiniNumpy()._as_arr(out)
+                    n_shapes += 1
+                    if out.shape != (R, L):
+                        bad_cell = bad_cell or f"repetitions={R}, {L} indices: result has shape {out.shape} instead of ({R}, {L})"
+                        continue
+                    for i in range(R):
+                        for j in range(L):
+                            want_f = a_add(xs[j], a_form({names[1]: i}))
+                            if out.data[i][j] != want_f and bad_cell is None:
+                                bad_cell = f"repetitions={R}, {L} indices: cell ({i}, {j}) holds {show_form(out.data[i][j])} instead of {show_form(want_f)}"
+        except Unsupported as e:
+            raise AnalysisError(f"create_sliced_arrays is neither a comprehension over range(repetitions) nor a numpy expression the index-map interpreter reads ({e}): " + found)
+        ok = bad_cell is None
+        found = bad_cell or f"index map int_list[j] + i * cycle_length on all {n_shapes} shapes up to 4 x 4 (symbolic elements)"
+        rep.assume("a vectorised create_sliced_arrays is decided on all shapes up to 4 x 4 with symbolic elements (index maps of repeat / tile / reshape are periodic in the dimensions)")
     rep.check(ok, "C12.X4", "RepetitionExperimentKernel.create_sliced_arrays", f.loc, found=found, required="[np.array(int_list) + i * cycle_length for i in range(repetitions)]",
-              what="successive experiment repetitions are not exact translates of the first cycle by the cycle length", detail="translate")
+              what="successive experiment repetitions are not exact translates of the first cycle by the cycle length" + (": " + found if not ok else ""), detail="translate")
     g = E.resolve("create_sliced_array")
     v = Evaluator(model, inline_methods=False).value_of(g, self_cls=E)
     ok = v[0] == "call" and isinstance(v[1], tuple) and v[1][2] == "concatenate" and len(v[2]) == 1 and find_calls(v[2][0], "create_sliced_arrays") and \
@@ -586,19 +622,68 @@ def x5(model: Model, rep: Report):
     ps = PathEnumerator(ev).function_paths(f, self_cls=E)
     ds = sym("dataset_size")
     n = 0
+    from ..extreme import fuse_comprehensions
+    from ..listflow import resolve_lists
+    from .common import devar
+    her_names = [a.arg for a in f.node.args.args if "herald" in a.arg]
+    cal_names = [a.arg for a in f.node.args.args if "calibration" in a.arg]
+    rounds_names = [a.arg for a in f.node.args.args if "round" in a.arg]
     for p in [q for q in ps if q.exit == "return"]:
         n += 1
         v = p.value
         # v = int(dataset / cycle)
         ok = v[0] == "call" and v[1] == "int" and len(v[2]) == 1 and v[2][0][0] == "div" and v[2][0][1] == ds
         cyc = v[2][0][2] if ok else None
-        if ok:
-            coeffs, k = as_lin(cyc)
-            stops = [a for a, c in coeffs.items() if a[0] == "attr" and a[2] == "stop_index" and c == 1 and a[1][0] == "sub" and number(a[1][2]) == -1]
-            starts = [a for a, c in coeffs.items() if a[0] == "attr" and a[2] == "start_index" and c == -1 and a[1][0] == "sub" and number(a[1][2]) == 0]
-            ok = len(coeffs) == 2 and len(stops) == 1 and len(starts) == 1 and k == 1 and stops[0][1][1] == starts[0][1][1]
-        rep.check(ok, "C12.X5", "RepetitionExperimentKernel.estimate_experiment_repetitions[quotient]", f.loc, found=show(v), required="int(dataset_size / (kernels[-1].stop_index - kernels[0].start_index + 1))",
-                  what="the estimate does not invert dataset size = repetitions x cycle length", detail="quotient")
+        if not ok:
+            rep.fail("C12.X5", "RepetitionExperimentKernel.estimate_experiment_repetitions[quotient]", f.loc, found=show(v), required="int(dataset_size / <cycle length>)",
+                     what="the estimate does not invert dataset size = repetitions x cycle length", detail="quotient")
+            continue
+        coeffs, k = as_lin(cyc)
+        stops = [a for a, c in coeffs.items() if a[0] == "attr" and a[2] == "stop_index" and a[1][0] == "sub"]
+        starts = [a for a, c in coeffs.items() if a[0] == "attr" and a[2] == "start_index" and a[1][0] == "sub"]
+        if stops or starts:
+            # reading A: the span of the chained kernels (their contiguity is C12.X1)
+            ok = len(coeffs) == 2 and len(stops) == 1 and len(starts) == 1 and k == 1 and coeffs[stops[0]] == 1 and coeffs[starts[0]] == -1 \
+                and number(stops[0][1][2]) == -1 and number(starts[0][1][2]) == 0 and stops[0][1][1] == starts[0][1][1]
+            rep.check(ok, "C12.X5", "RepetitionExperimentKernel.estimate_experiment_repetitions[quotient]", f.loc, found=show(v), required="int(dataset_size / (kernels[-1].stop_index - kernels[0].start_index + 1))",
+                      what="the estimate does not invert dataset size = repetitions x cycle length", detail="quotient")
+            continue
+        # reading B: a closed form  sum(g(n) for n in rounds) + c : g must be the kernel length h + max(1, n) of one block (C12.X2) in every region,
+        # c the calibration kernel length 3h + 3 when calibration points are counted and 0 otherwise (C12.X3)
+        cyc2 = devar(fuse_comprehensions(resolve_lists(p, cyc)))
+        coeffs, k = as_lin(cyc2)
+        sums = [a for a in coeffs if a[0] == "call" and a[1] == "sum" and len(a[2]) == 1 and a[2][0][0] == "comp" and len(a[2][0][3]) == 1 and not a[2][0][3][0][1]
+                and a[2][0][3][0][0] in [sym(x) for x in rounds_names]]
+        her = [sym(x) for x in her_names]
+        cal = [sym(x) for x in cal_names]
+        h_val = None
+        for hs in her:
+            if subst(p.cond, {hs: FALSE}) == FALSE:
+                h_val = 1
+            elif subst(p.cond, {hs: TRUE}) == FALSE:
+                h_val = 0
+        c_val = None
+        for cs in cal:
+            if subst(p.cond, {cs: FALSE}) == FALSE:
+                c_val = True
+            elif subst(p.cond, {cs: TRUE}) == FALSE:
+                c_val = False
+        if len(sums) != 1 or len(coeffs) != 1 or coeffs[sums[0]] != 1 or h_val is None or c_val is None:
+            raise AnalysisError(f"RepetitionExperimentKernel.estimate_experiment_repetitions: the cycle length {show(cyc)[:120]} is neither the span of the chained kernels nor a per-round sum")
+        comp = sums[0][2][0]
+        bs = subterms(comp[2], lambda y: y[0] == "bound")
+        bad = []
+        for region, nval in (("n=0", ZERO), ("n=1", ONE), ("n=k+2", t_add(K, lin({}, Fraction(2))))):
+            g = resolve_max(subst(comp[2], {b: nval for b in bs}))
+            want = resolve_max(t_add(lin({}, Fraction(h_val)), ("max", tuple(sorted([ONE, nval], key=repr)))))
+            if g != want:
+                bad.append(f"{region}, heralded={bool(h_val)}: counts {show(g)} acquisitions, the kernel has {show(want)}")
+        want_c = Fraction(3 * h_val + 3) if c_val else Fraction(0)
+        if k != want_c:
+            bad.append(f"heralded={bool(h_val)}, calibration={c_val}: adds {k} for the calibration block, its kernel has {want_c}")
+        rep.check(not bad, "C12.X5", "RepetitionExperimentKernel.estimate_experiment_repetitions[quotient]", f.loc, found="; ".join(bad) or show(cyc2)[:160],
+                  required="cycle length = sum over rounds of (heralded + max(1, n)) + (3 * heralded + 3 if calibration points)",
+                  what="the estimate does not invert dataset size = repetitions x cycle length: " + "; ".join(bad), detail="quotient")
     asserts = [p for p in ps if p.exit == "raise" and isinstance(p.exit_node, ast.Assert)]
     ok = False
     for a in asserts:
